@@ -5,7 +5,7 @@
    check_case evaluates, on the implementation's document: doc_ok_json, denote_json (under the original schema and
    under the schema the embedded declarations mean), and the reader model load_json; and on the scenario: the writer
    model save_json (document modulo member order, %TYPES at the level of declarations) and canon_json. *)
-From Cassis Require Import Base Heap Schema Canon Reach JsonDoc Json.
+From Cassis Require Import Base Heap Schema Canon Reach JsonDoc Json JsonWf.
 Open Scope Z_scope.
 
 Record case := mkCase {
@@ -108,8 +108,8 @@ Definition explain (c : case) : list bool :=
     match c_variant c with Some v => check_doc s (c_mode c) v (c_canon c) | None => true end;
     match c_variant c with Some v => res_ccas_eqb (load_json std_lex s v) (c_loaded c) | None => true end ].
 
-(* the boolean premises of the theorems in Props/C02.v, on the CAS the writer model leaves behind; the lexical contract
-   is tested on the texts and byte arrays of the case *)
+(* the boolean premises of the theorems in Props/C02.v, on the CAS the writer model leaves behind (wf_jsonb, ids_distinctb,
+   refs_wfb from Json.v; typed_jsonb from JsonWf.v); the lexical contract is tested on the texts and byte arrays of the case *)
 Definition lex_tested (c : cas) : bool :=
   forallb (fun v => match s_text (v_sofa v) with
                     | Some t => match utf8_dec (utf8_enc t) with Some t' => list_eqb N.eqb t t' | None => false end
@@ -124,6 +124,6 @@ Definition lex_tested (c : cas) : bool :=
 Definition premises (c : case) : bool :=
   let s := full_schema (c_user c) in
   match save_json std_lex s (c_mode c) (c_cas c) with
-  | Ok (_, c') => wf_jsonb s c' && ids_distinctb s c' && (0 <? c_next_id (c_cas c)) && lex_tested c'
+  | Ok (_, c') => wf_jsonb s c' && ids_distinctb s c' && refs_wfb s c' && typed_jsonb s c' && (0 <? c_next_id (c_cas c)) && lex_tested c'
   | _ => false
   end.
